@@ -247,6 +247,7 @@ class CacheRun(object):
         self.gen_states = 0
         self.behaviours = 0
         self.deviations = {}
+        self.extra_cov = {}
 
     # -- step 1
     def model_checks(self, configs, workers_each=4):
@@ -396,6 +397,11 @@ class CacheRun(object):
                                  'states': st['states'], 'wall_s': round(st['wall'], 1),
                                  'replay_wall_s': round(t_replay, 1), 'drift_traces': ndrift},
         }
+        cov.update(self.extra_cov)
+        for x in self.extra_cov.values():
+            if isinstance(x, dict):
+                cov['states'] += x.get('states', 0)
+                cov['transitions'] += x.get('events', 0)
         return self.rep.finish(level, cov, assumptions)
 
 
@@ -721,6 +727,10 @@ def check_C01(tier):
                     variants=('plain', 'plain', 'ignore_y', 'tol0'))
     scenario_probes(run, {'compaction', 'clear', 'peek'}, backends=('plain', 'dictarch', 'file'))
     scenario_recursive(run, 1000 if t else 150)
+    # the same property on the key engine's catalogue of signatures, spellings, keymaps and callables (partials, methods,
+    # functions sharing a code object): the returned value is compared with the function's own value for that call
+    from . import key_checks
+    run.extra_cov['key_catalogue'] = key_checks.extra_for_C01(run.rep, tier)
     return run.finish(assumptions=ASSUME)
 
 
@@ -905,6 +915,9 @@ def main(pid, tier):
 def replay(pid, path):
     """re-run the recorded operation sequence on the current tree and let TLC judge it again"""
     case = json.load(open(path))['case']
+    if case.get('replay') == 'key':
+        from . import key_checks
+        return key_checks.replay(pid, path)
     wd = os.path.join(common.scratch('cache-replay'), 'r')
     os.makedirs(wd, exist_ok=True)
     t = cd.run_sequence(case['config'], case['ops'], wd)
